@@ -173,7 +173,7 @@ class Engine:
             return z3.And(z3.Not(v.is_none), to_z3_bool(t))
         if isinstance(v, Opaque) and v.kind == 'str':
             return self.opaque_pred(v, 'str_nonempty')
-        if isinstance(v, Opaque) and v.kind in self.symbolic_truth_kinds:
+        if isinstance(v, Opaque) and (v.kind in self.symbolic_truth_kinds or v.kind in getattr(self.registry, 'symbolic_truth_kinds', ())):
             return self.opaque_pred(v, 'truthy')
         if isinstance(v, (ExcV, Opaque, FuncRef, ClassRef, BoundMethod, ExtMethod, PartialV, Closure, Builtin, ExtClassRef)):
             return True  # A-EXC-TRUTHY / plain objects
